@@ -125,6 +125,30 @@ def check_model(text, exp, renderer, acc, case):
     check_ids(doc, pickles, acc, case)
 
 
+def check_ast(ast, acc, case):
+    """Compiler shapes (backgrounds x rules x outlines with several rows / tables): pickle ids continue the AST numbering,
+    steps before their pickle, dense, unique, references resolve - with a fresh compiler and with a reused one."""
+    acc.n += 1
+    acc.validated += 1
+    got, exp, before, after = P.compile_both(ast)
+    for route, res in (('fresh compiler', got), ('compiler that compiled other documents before', P.compile_reused(ast))):
+        if res[0] != 'ok':
+            acc.violation('compile-exception', case, 'Compiler.compile (%s) raised %s' % (route, res[1]))
+            return
+        if P.p_c11(res[1]) != P.p_c11(exp):
+            acc.violation('pickle-id-order', case, route + ': pickle / pickle step ids are not assigned steps-first in document order, continuing the AST numbering',
+                          observed=P.p_c11(res[1])[:3], expected=P.p_c11(exp)[:3])
+            return
+        check_ids(before, res[1], acc, case)
+    if got[1]:
+        acc.nontrivial += 1
+
+
+def shapes(family, quick):
+    from . import c07
+    yield from c07.shapes(family, quick)
+
+
 POOL = [
     'Feature: a\n  Scenario: s\n    Given x\n',
     '',
@@ -217,12 +241,19 @@ def run(ctx):
                 'histories = all sequences of <= h documents from a pool of %d through one stream and one parser/compiler pair; non-trivial = documents with more than one id / all histories' % len(POOL))
     ctx.alphabet = {'history_pool': POOL}
     G.run_families(ctx, __name__, 6, 7, [0, 6])
+    from .. import astgen as A
+    ns = 16
+    for fam in ('no-rules', 'rules'):
+        ctx.level('compiler shapes:' + fam, [A.job_shapes.job(__name__, fam, s, ns, ctx.quick) for s in range(ns)])
     h = ctx.pick(3, 4)
     ctx.level('histories h<=%d' % h, [job_histories.job(i, h) for i in range(len(POOL))])
 
 
 def replay(case):
     acc = Acc()
+    if case.get('kind') == 'ast':
+        check_ast(case['ast'], acc, case)
+        return [v[0]['message'] for v in acc.viol.values()]
     if case.get('kind') == 'history':
         # re-run the history family member
         hist = case['history']
